@@ -196,6 +196,8 @@ class Option(Evaluatable[A]):
             _ = self.evaluate(options)
         elif self.default is not MISSING:
             self.default.validate(options)
+            if self.domain is not MISSING:
+                self.domain.validate(options)
         else:
             raise KeyNotFoundError(self.key, self)
 
@@ -207,28 +209,33 @@ class Option(Evaluatable[A]):
         if the default value is an Evaluatable, the keys required by the
         Evaluatable are also returned.
         """
+        # the value is checked against the domain, so the result depends on it too
+        domain = set() if self.domain is MISSING else self.domain.keys(options)
         if dotted_key_exists(self.key, options):
             value = get_dotted_key(self.key, options)
             return {self.key}.union(
-                *(Template(s).keys(options) for s in _templated_strings(value))
+                domain,
+                *(Template(s).keys(options) for s in _templated_strings(value)),
             )
         elif self.default is not MISSING:
-            return self.default.keys(options)
+            return self.default.keys(options) | domain
         else:
             raise KeyNotFoundError(self.key, self)
 
     def explain(self, options: Optional[Options] = None) -> Set[str]:
         """Returns the keys required by the option."""
         options = options or {}
+        domain = set() if self.domain is MISSING else self.domain.explain(options)
         if dotted_key_exists(self.key, options):
             value = get_dotted_key(self.key, options)
             return {self.key}.union(
-                *(Template(s).explain(options) for s in _templated_strings(value))
+                domain,
+                *(Template(s).explain(options) for s in _templated_strings(value)),
             )
         elif self.default is not MISSING:
-            return self.default.explain(options)
+            return self.default.explain(options) | domain
         else:
-            return {self.key}
+            return {self.key} | domain
 
     def __repr__(self) -> str:
         return (
